@@ -253,4 +253,145 @@ def units(tier):
     for p in (["ss", "sd"] if tier == "quick" else ["ss", "sd", "sds"]):
         for k in (2, 3):
             us.append(Unit("S.session_header[%s,%d stages]" % (p, k), M, "session_header", {"pattern": p, "nstages": k}, 900))
+    for nm in FILTER_LISTS:
+        for aes in (False, True):
+            us.append(Unit("5.chain_sizes[%s%s]" % (nm, "+AES" if aes else ""), M, "chain_sizes", dict(name=nm, with_aes=aes), 600))
     return us
+
+
+# --------------------------------------------------- 5. coder chains: construction and size bookkeeping on both sides
+FILTER_LISTS = {
+    "LZMA2": [{"id": 0x21, "preset": 1}],
+    "Delta+LZMA2": [{"id": 0x03, "dist": 4}, {"id": 0x21, "preset": 1}],
+    "X86+LZMA2": [{"id": 0x04}, {"id": 0x21, "preset": 1}],
+    "LZMA": [{"id": 0x4000000000000001, "preset": 1}],
+    "X86+LZMA": [{"id": 0x04}, {"id": 0x4000000000000001, "preset": 1}],
+    "BZip2": [{"id": 0x31}],
+    "X86+BZip2": [{"id": 0x04}, {"id": 0x31}],
+    "Copy": [{"id": 0x33}],
+    "Deflate": [{"id": 0x32}],
+    "ARM+Deflate": [{"id": 0x07}, {"id": 0x32}],
+    "ZStandard": [{"id": 0x35, "level": 3}],
+    "PPMd": [{"id": 0x36, "order": 6, "mem": 16}],
+}
+AES = {"id": 0x06F10701}
+
+
+def chain_sizes(name, with_aes):
+    """SevenZipCompressor.__init__ + .unpacksizes  ->  coders  ->  SevenZipDecompressor.__init__: the size the decompressor
+    expects from each of its chain elements is the size that entered the corresponding encoder stage; the chain ends in
+    7zAES exactly when asked"""
+    from vf.pysym.models import Native
+
+    CP = "py7zr.compressor"
+    filters = [dict(f) for f in FILTER_LISTS[name]] + ([dict(AES)] if with_aes else [])
+    r = ObResult(bounds="filter list %s%s; per-stage input sizes symbolic (size-preserving filters inside one native lzma chain "
+                        "share their stage)" % (name, "+7zAES" if with_aes else ""))
+    eng = Engine([CP], intmode="int")
+    built = {"enc": [], "dec": []}
+
+    class Enc(Native):
+        def __init__(self, kind, arg=None):
+            self.kind, self.arg = kind, arg
+
+        def encode_filter_properties(self, e):
+            return e.mkbytes(b"\x53\x0f" + bytes(16))
+
+    class Dec(Native):
+        def __init__(self, kind, arg=None):
+            self.kind, self.arg = kind, arg
+
+    def mk(side, kind):
+        def f(e, *a, **k):
+            o = (Enc if side == "enc" else Dec)(kind, a)
+            built[side].append(o)
+            return o
+        return f
+
+    import bz2
+    import lzma
+
+    for cls_, kind in [("LZMA1Compressor", "lzma-chain"), ("AESCompressor", "aes"), ("CopyCompressor", "copy"), ("DeflateCompressor", "deflate"),
+                       ("ZstdCompressor", "zstd"), ("PpmdCompressor", "ppmd"), ("BCJEncoder", "bcj"), ("BcjArmEncoder", "bcj"),
+                       ("BrotliCompressor", "brotli"), ("Deflate64Compressor", "deflate64")]:
+        eng.class_models[(CP, cls_)] = mk("enc", kind)
+    for cls_, kind in [("LZMA1Decompressor", "lzma-chain"), ("AESDecompressor", "aes"), ("CopyDecompressor", "copy"), ("DeflateDecompressor", "deflate"),
+                       ("ZstdDecompressor", "zstd"), ("PpmdDecompressor", "ppmd"), ("BCJDecoder", "bcj"), ("BcjArmDecoder", "bcj"),
+                       ("BrotliDecompressor", "brotli"), ("Deflate64Decompressor", "deflate64")]:
+        eng.class_models[(CP, cls_)] = mk("dec", kind)
+    eng.models.reg(bz2.BZ2Compressor, mk("enc", "bz2"))
+    eng.models.reg(bz2.BZ2Decompressor, mk("dec", "bz2"))
+    eng.models.reg(lzma.LZMADecompressor, mk("dec", "lzma-chain"))
+    eng.models.reg(lzma._encode_filter_properties, lambda e, f: e.mkbytes(lzma._encode_filter_properties(f)))
+    eng.models.reg(lzma._decode_filter_properties, lambda e, fid, props: lzma._decode_filter_properties(fid, props.tobytes()))
+    eng.overrides[(CP, "PpmdCompressor.encode_filter_properties")] = lambda e, cls__, f: e.mkbytes(b"\x06\x00\x00\x01\x00\x00\x00")
+    sizes = [eng.sym_int("stage_in%d" % i, 40) for i in range(4)]
+
+    def harness(e):
+        built["enc"], built["dec"] = [], []
+        try:
+            comp = e.new(e.cls(CP, "SevenZipCompressor"), filters, "pw" if with_aes else None)
+        except ModelRaise as ex:
+            return dict(rejected=ex.name)
+        nst = len(comp.attrs["chain"])
+        comp.attrs["_unpacksizes"] = list(sizes[:nst])
+        ups = e.models.getattr(e, comp, "unpacksizes")
+        coders = comp.attrs["coders"]
+        try:
+            dec = e.new(e.cls(CP, "SevenZipDecompressor"), coders, 1000, ups, None, "pw" if with_aes else None)
+        except ModelRaise as ex:
+            return dict(dec_exc=ex.name, ncoders=len(coders))
+        return dict(enc=list(built["enc"]), dec=list(built["dec"]), nst=nst, ups=ups, coders=coders,
+                    dchain=dec.attrs["chain"], dsizes=dec.attrs["_unpacksizes"])
+
+    def post(o):
+        if "rejected" in o:
+            return None
+        if "dec_exc" in o:
+            return False       # what the compressor builds must be accepted by the decompressor
+        c = [len(o["ups"]) == len(o["coders"]), len(o["coders"]) == len(filters)]
+        enc_kinds = [x.kind for x in o["enc"]]
+        dec_kinds = [x.kind for x in o["dec"]]
+        c.append((enc_kinds[-1] == "aes") == with_aes)                 # the chain ends in the cipher exactly when asked
+        c.append(dec_kinds == list(reversed(enc_kinds)))               # decoding undoes the stages in reverse order
+        c.append(len(o["dchain"]) == o["nst"] and len(o["dsizes"]) >= o["nst"])   # (entries beyond the chain length are unused)
+        if len(o["dsizes"]) >= o["nst"]:
+            for i in range(o["nst"]):
+                # decoder element i undoes encoder stage nst-1-i and must expect what entered that stage
+                c.append(eng.compare(ast.Eq(), o["dsizes"][i], sizes[o["nst"] - 1 - i]))
+        if with_aes:
+            c.append(o["coders"][0]["method"].tobytes() == b"\x06\xf1\x07\x01")
+        return c
+
+    decide(eng, harness, post, {"stage_in%d" % i: s for i, s in enumerate(sizes)}, r,
+           describe=lambda o: o.get("rejected") or o.get("dec_exc") or "%d coders, %d stages" % (len(o["coders"]), o["nst"]))
+    _cexs = c17._cex
+    _cexs(r, "chain_sizes", lambda w: dict(module="vf.props.c07", func="replay_chain", kwargs=dict(name=name, with_aes=with_aes)),
+          signature=lambda w: {"obligation": "chain_sizes", "chain": name, "aes": with_aes})
+    return r
+
+
+def replay_chain(name, with_aes):
+    """real round trip of that chain through SevenZipCompressor / SevenZipDecompressor"""
+    from py7zr.compressor import SevenZipCompressor, SevenZipDecompressor
+
+    filters = [dict(f) for f in FILTER_LISTS[name]] + ([dict(AES)] if with_aes else [])
+    data = bytes((i * 7 + (i >> 5)) & 0xFF for i in range(70000))
+    try:
+        c = SevenZipCompressor(filters=filters, password="pw" if with_aes else None)
+    except Exception as e:  # noqa
+        return False, "chain rejected by the compressor: %r" % (e,)
+    out = io.BytesIO()
+    c.compress(io.BytesIO(data), out)
+    c.flush(out)
+    try:
+        d = SevenZipDecompressor(c.coders, c.packsize, c.unpacksizes, None, "pw" if with_aes else None)
+        fp = io.BytesIO(out.getvalue())
+        got = b""
+        for _ in range(200):
+            if len(got) >= len(data):
+                break
+            got += d.decompress(fp, len(data) - len(got))
+    except Exception as e:  # noqa
+        return True, "chain %s: decompressor fails on what the compressor wrote: %r" % (name, e)
+    return got != data, "chain %s%s: %d of %d bytes back" % (name, "+AES" if with_aes else "", len(got), len(data))
